@@ -148,6 +148,19 @@ def coq_build(prop_files, other_targets=(), clean=False, timeout=1500):
                 problems=problems, cmd="cd /verif/coq && " + cmd)
 
 
+def coqchk(prop_files, timeout=1500):
+    """Independent re-check of the compiled property files (and everything they depend on) with coqchk;
+    returns dict(ok, axioms text, log)."""
+    mods = ["Sq." + pf[len("theories/"):-2].replace("/", ".") for pf in prop_files]
+    rc, out = sh("timeout %d coqchk -silent -o -Q theories Sq %s" % (timeout, " ".join(mods)), cwd=COQ, timeout=timeout + 30)
+    m = re.search(r"\* Axioms:\s*(.*?)\n\s*\n\* Constants/Inductives relying on type-in-type:\s*(.*?)\n\s*\n"
+                  r"\* Constants/Inductives relying on unsafe \(co\)fixpoints:\s*(.*?)\n\s*\n"
+                  r"\* Inductives whose positivity is assumed:\s*(.*?)\n", out, flags=re.S)
+    fields = [f.strip() for f in m.groups()] if m else []
+    ok = rc == 0 and len(fields) == 4 and all(f == "<none>" for f in fields)
+    return dict(ok=ok, rc=rc, fields=fields, log=out[-2500:])
+
+
 def run_coqc(path, timeout=900):
     return sh("timeout %d coqc -noglob -Q theories Sq -Q gen SqGen -w -notation-overridden %s" % (timeout, path),
               cwd=COQ, timeout=timeout + 30)
@@ -398,6 +411,15 @@ def standard_check(cfg, tier, seed, replay=None):
         log(cb["log"])
         R.violation("broken-theorem", dict(what="Coq development for %s does not build/audit" % prop,
                                            rc=cb["rc"], problems=cb["problems"], axioms=cb["axioms"], log=cb["log"][-2000:]), False)
+
+    if tier == "thorough" and not replay and cb["rc"] == 0 and not os.environ.get("SQV_NO_COQCHK"):
+        ck = coqchk(props_files)
+        cov["coqchk"] = dict(ok=ck["ok"], axioms_typeintype_unsafefix_positivity=ck["fields"])
+        obligations += 1
+        if ck["ok"]:
+            discharged += 1
+        else:
+            R.violation("broken-theorem", dict(what="coqchk does not accept the compiled development or reports axioms", log=ck["log"]), False)
 
     # 2. harness
     hb = harness_build()
